@@ -34,10 +34,25 @@ def main() -> int:
     ap.add_argument("--only", nargs="*")
     ap.add_argument("--all", action="store_true", help="run every claimed check, not only the targeted one")
     ap.add_argument("--tier", default="quick")
+    ap.add_argument("--in-repo", action="store_true",
+                    help="apply the patches to /repo itself (the official procedure; do not use while other "
+                         "processes import funtracks from /repo/src). Default: a scratch worktree + PYTHONPATH.")
     args = ap.parse_args()
-    if not repo_clean():
-        print("refusing: /repo has uncommitted changes")
-        return 2
+    import os
+    if args.in_repo:
+        if not repo_clean():
+            print("refusing: /repo has uncommitted changes")
+            return 2
+        tree = "/repo"
+        env = dict(os.environ)
+    else:
+        tree = "/tmp/seed_wt"
+        sh(["git", "-C", "/repo", "worktree", "remove", "--force", tree])
+        r = sh(["git", "-C", "/repo", "worktree", "add", "--detach", tree, "HEAD"])
+        if r.returncode != 0:
+            print(r.stderr)
+            return 2
+        env = dict(os.environ, PYTHONPATH=tree + "/src")
     manifest = json.loads((V / "MANIFEST.json").read_text())
     claimed = [c["property_id"] for c in manifest["checks"]]
     results = {}
@@ -49,7 +64,7 @@ def main() -> int:
             continue
         meta = json.loads((d / "meta.json").read_text())
         target = meta["property"]
-        ap_ = sh(["git", "-C", "/repo", "apply", str(d / "patch.diff")])
+        ap_ = sh(["git", "-C", tree, "apply", str(d / "patch.diff")])
         if ap_.returncode != 0:
             results[d.name] = {"error": "patch does not apply: " + ap_.stderr[:300]}
             continue
@@ -60,7 +75,7 @@ def main() -> int:
                     row["checks"][prop] = {"rc": None, "note": "property not claimed"}
                     continue
                 t0 = time.time()
-                r = sh([str(V / "check"), prop, "--tier", args.tier], cwd=V)
+                r = sh([str(V / "check"), prop, "--tier", args.tier], cwd=V, env=env)
                 viol = [l for l in r.stdout.splitlines() if l.startswith("VIOLATION")]
                 row["checks"][prop] = {"rc": r.returncode, "violations": viol[:4],
                                        "no_failing_input": any("no-failing-input-found" in v for v in viol),
@@ -69,8 +84,10 @@ def main() -> int:
             results[d.name] = row
             print(d.name, target, "CAUGHT" if row["caught"] else "MISSED", row["checks"].get(target))
         finally:
-            sh(["git", "-C", "/repo", "checkout", "--", "."])
-            sh(["git", "-C", "/repo", "clean", "-fdq", "src"])
+            sh(["git", "-C", tree, "checkout", "--", "."])
+            sh(["git", "-C", tree, "clean", "-fdq", "src"])
+    if not args.in_repo:
+        sh(["git", "-C", "/repo", "worktree", "remove", "--force", tree])
     rf.write_text(json.dumps(results, indent=1))
     lines = ["# Seeded changes vs. checks", "",
              "| seeded change | property | targeted check | with concrete replay | other checks that fire |", "|---|---|---|---|---|"]
